@@ -271,6 +271,14 @@ def command_arms(cl):
             for a in t["arms"]:
                 if a.get("name"):
                     arms[a["name"]] = a["target"]
+    if not ({"Pause", "Continue", "Flush", "Progress", "Inspect"} & set(arms)):
+        # `Ok(command) => match command { .. }`: the command is bound first and matched on its own
+        for bi, blk in enumerate(cl.blocks):
+            t = blk["term"]
+            if t["k"] == "switch" and not blk["cleanup"] and path_ends(t.get("enum_adt") or "", "sampler::SamplerCommand"):
+                named = {a["name"]: a["target"] for a in t["arms"] if a.get("name")}
+                if len(named) >= 2:
+                    arms.update(named)
     loops = cl.natural_loops()
     hdr = None
     for h, body in loops.items():
@@ -338,7 +346,7 @@ def r4(F, R, rid="C12-R4", commands=(("Pause", "send:Pause"), ("Continue", "send
                             inner_ops += sum(1 for _b2, t2 in cb_.calls() if _is_op(cb_, t2, op))
                     if inner_ops == 1 and over_chains and plain:
                         hit = (bb, t, nm)
-            if hit and cl.dominates(hit[0], sends[0][0]):
+            if hit and sends[0][0] not in cl.reach_from(arms[cmd], avoid=[hdr] + others + [hit[0]]):
                 R.ok(rid, key, "%s @%s" % (cl.path, loc(hit[1]["span"])), "%s is applied to every chain by chains.iter().%s(..) before the acknowledgement" % (cmd, hit[2]))
                 continue
         if len(ops) != 1 or len(sends) != 1:
@@ -364,7 +372,8 @@ def r4(F, R, rid="C12-R4", commands=(("Pause", "send:Pause"), ("Continue", "send
                 if not plain:
                     it_ok = False
         # the send is only reached through the loop's exit
-        if inner and it_ok and sbb not in loops[inner[0]] and cl.dominates(inner[0], sbb):
+        # (within the arm: the acknowledgement may be shared by all arms - `let response = match command { .. }; send(response)`)
+        if inner and it_ok and sbb not in loops[inner[0]] and sbb not in cl.reach_from(arms[cmd], avoid=[hdr] + others + [inner[0]]):
             R.ok(rid, key, "%s @%s" % (cl.path, loc(sends[0][1]["span"])), "%s is forwarded to every chain (loop over `chains`) before the acknowledgement" % cmd)
         else:
             R.bad(rid, key, "%s @%s" % (cl.path, loc(sends[0][1]["span"])), "%s: the acknowledgement is not dominated by a loop over all chains calling %s "
